@@ -43,6 +43,8 @@ def scenarios(pid, tier, seed):
     elif pid == "C03":
         sc += comm_scen.fam_limit(seed, 900 if big else 150, 4 if big else 2)
         sc += comm_scen.fam_data(seed, 60 if big else 15, 2)
+        # (the text-returning variant with limits that cut multi-byte characters)
+        sc += [x for x in comm_scen.fam_text(seed, 200 if big else 60, 2) if any("limit" in c for c in x["calls"])]
         sc += comm_scen.fam_eintr(seed, 200 if big else 50, 3)
     elif pid == "C04":
         sc += comm_scen.fam_time(seed, 700 if big else 120, 4 if big else 2)
